@@ -82,4 +82,7 @@ FirstBadDeclared(t, d, st, tfdt) ==
    IF ~(Len(d) = Len(t) /\ Len(st) = Len(t) /\ Len(tfdt) = Len(t)) THEN 0
    ELSE LET bad == { i \in 1..Len(t) : ~DeclaredEntryOK(t, d, st, tfdt, i) } IN
         IF bad = {} THEN -1 ELSE CHOOSE i \in bad : \A j \in bad : i <= j
+
+\* C15.contig, far form: segment k*N + j (j = 0, 1) is served (200) at k*L + exp[j]: pair [w, r] over L with w = k, r = exp[j]
+FarOK(k, st, w, r, exp) == \A j \in 1..Len(exp) : st[j] = 200 /\ w[j] = k /\ r[j] = exp[j]
 =============================================================================
